@@ -44,6 +44,49 @@ def comprehension_cases(rng, n):
     return cases
 
 
+def effect_order_cases():
+    """what the element expression DOES must match the equivalent loop too: it is evaluated only for elements that pass the filter
+    (an element that fails the filter may make the element expression fail: `[10 / x for x in [0, 1, 2] if x != 0]`), the filter is
+    evaluated once per element and before the element expression; observed through a log and through failing element expressions"""
+    cases = []
+    T = "def LOG = []; def t(x) do append(LOG, x); x end; "
+    N = "[0, 1, 2, 3]"
+    for condv in ("V % 2 == 1", "t(V + 100) > 101", "V != 0 and 6 / V > 2"):
+        cond = condv.replace("V", "a")
+        for kind in ("list", "set", "map"):
+            if kind == "list":
+                comp, init, add = f"[t(a) for a in {N} if {cond}]", "[]", "append(r, t(a))"
+            elif kind == "set":
+                comp, init, add = f"<<t(a) for a in {N} if {cond} >>", "<<>>", "append(r, t(a))"
+            else:
+                comp, init, add = f"<<<t(a) => t(a * 10) for a in {N} if {cond} >>>", "<<<>>>", "do def k_ = t(a); r[k_] = t(a * 10) end"
+            cases.append((T + f"def r = {comp}; [r, LOG]", ('same', T + f"def r = {init}; for a in {N} do if {cond} then {add} end; [r, LOG]")))
+        for mode in ("for", "also for"):
+            for open_, close, init in (("[", "]", "[]"), ("<<", " >>", "<<>>")):
+                condb = condv.replace("V", "b")
+                comp = f"{open_}t(a * 10 + b) for a in [0, 1, 2] {mode} b in [2, 1, 0] if a != b and {condb}{close}"
+                body = f"if a != b and {condb} then append(r, t(a * 10 + b))"
+                if mode == "for":
+                    loop = f"def r = {init}; for a in [0, 1, 2] do for b in [2, 1, 0] do {body} end end; [r, LOG]"
+                else:
+                    loop = f"def r = {init}; for i_ in range(3) do def a = i_; def b = 2 - i_; {body} end; [r, LOG]"
+                cases.append((T + f"def r = {comp}; [r, LOG]", ('same', T + loop)))
+    for comp, loop in [
+            ("[10 / x for x in [0, 1, 2] if x != 0]", "def r = []; for x in [0, 1, 2] do if x != 0 then append(r, 10 / x) end; r"),
+            ("<<10 / x for x in [0, 1, 2] if x != 0 >>", "def r = <<>>; for x in [0, 1, 2] do if x != 0 then append(r, 10 / x) end; r"),
+            ("<<<x => 10 / x for x in [0, 1, 2] if x != 0 >>>", "def r = <<<>>>; for x in [0, 1, 2] do if x != 0 then r[x] = 10 / x end; r"),
+            ("<<<10 / x => x for x in [0, 1, 2] if x != 0 >>>", "def r = <<<>>>; for x in [0, 1, 2] do if x != 0 then r[10 / x] = x end; r"),
+            ("[x[0] for x in [[], [1], [2, 3]] if length(x) > 0]", "def r = []; for x in [[], [1], [2, 3]] do if length(x) > 0 then append(r, x[0]) end; r"),
+            ("[10 / (x - y) for x in [1, 2] for y in [1, 2] if x != y]", "def r = []; for x in [1, 2] do for y in [1, 2] do if x != y then append(r, 10 / (x - y)) end end; r"),
+            ("<<10 / (x - y) for x in [1, 2] for y in [1, 2] if x != y >>", "def r = <<>>; for x in [1, 2] do for y in [1, 2] do if x != y then append(r, 10 / (x - y)) end end; r"),
+            ("[10 / (x - y) for x in [1, 2] also for y in [1, 3] if x != y]", "[-10]"),
+            ("<<10 / (x - y) for x in [1, 2] also for y in [1, 3] if x != y >>", "<<-10>>"),
+            ("[undefined_name_q for x in [1, 2] if x > 5]", "[]"),
+            ("do [error x for x in [1, 2, 3] if x == 2] catch 2 'second' end", "'second'")]:
+        cases.append((comp, ('same', loop)))
+    return cases
+
+
 def exit_cases():
     """return / break / continue in their operand-free forms"""
     return [
@@ -89,6 +132,7 @@ def run(ctx):
                 "condition, against the equivalent explicit loop")
     progcheck.run_profiles(ctx, ["control", "mixed"], 3000 if ctx.thorough else 500)
     progcheck.run_templates(ctx, comprehension_cases(ctx.rng, None if ctx.thorough else 500), "comprehension-vs-loop")
+    progcheck.run_templates(ctx, effect_order_cases(), "comprehension-effect-order")
     progcheck.run_templates(ctx, exit_cases(), "exit-statements")
     common.replay_known(ctx)
 
